@@ -33,7 +33,7 @@ def profiles(K, seed):
 
 
 def task_split(ctx, cfg, levels, lname, kind, pname, tref1, tref2, orography, extra_tracer, q_mode='general',
-               condensate=True):
+               condensate=True, option='default', derive=None):
   from dinosaur import primitive_equations as pe
   coords = models.make_coords(cfg, levels)
   grid = coords.horizontal
@@ -57,7 +57,23 @@ def task_split(ctx, cfg, levels, lname, kind, pname, tref1, tref2, orography, ex
     specs = models.unit_specs(cpv=1.0 / 0.25)       # Cp = R/kappa = 4 -> heat capacity ratio 1
   else:
     specs = models.unit_specs()
-  eq1 = cls(tref1, oro, coords, specs); eq2 = cls(tref2, oro, coords, specs)
+  from dinosaur import sigma_coordinates as sc
+  import dataclasses, copy
+  okw = {'default': {}, 'no_vertical_advection': dict(include_vertical_advection=False), 'upwind': dict(vertical_advection=sc.upwind_vertical_advection),
+         'sparse': dict(vertical_matmul_method='sparse')}[option]
+  eq1 = cls(tref1, oro, coords, specs, **okw)
+  if derive is None:
+    eq2 = cls(tref2, oro, coords, specs, **okw)
+  else:
+    # the second equation object is DERIVED from the first one after the first one has been used (anything cached on the object must not
+    # survive a change of the reference profile)
+    z = jnp.zeros(coords.modal_shape); zs = jnp.zeros(coords.surface_modal_shape)
+    s0 = pe.State(z, z, z, zs, {}) if kind == 'dry' else pe.StateWithTime(z, z, z, zs, 0.0, {})
+    eq1.implicit_terms(s0); eq1.implicit_inverse(s0, 0.1)
+    if derive == 'replace':
+      eq2 = dataclasses.replace(eq1, reference_temperature=tref2)
+    else:
+      eq2 = copy.copy(eq1); eq2.reference_temperature = tref2
   sp = Space(bits=10)
   tracers = []
   if kind in ('moist', 'cloud'):
@@ -98,7 +114,7 @@ def task_split(ctx, cfg, levels, lname, kind, pname, tref1, tref2, orography, ex
     t2 = t.at[:, 0, 0].add(shift)
     return total(eq1, v, d, t, p, *trs), total(eq2, v, d, t2, p, *trs)
   conf = dict(grid=grids.cfg_name(cfg), levels=lname, kind=kind, profiles=pname, orography=bool(orography),
-              extra_tracer=bool(extra_tracer), q_mode=q_mode, condensate=bool(condensate))
+              extra_tracer=bool(extra_tracer), q_mode=q_mode, condensate=bool(condensate), option=option, derived=derive)
   prove_close(ctx, 'tendency_independent_of_reference_split', both, xs + tr_vars, sp, config=conf,
               reduce_atoms=(q_mode == 'uniform'), scale_floor=1.0)
 
@@ -121,6 +137,11 @@ def make_tasks(tier, seed):
   add(cfgf, 'dy3', 'time', 'zigzag/bulge', True, False)
   add(cfgf, 'eq2', 'time', 'const/const', True, False)
   add(cfg3, 'dy2', 'moist', 'const/linear', True, False, q_mode='general')
+  add(cfg3, 'dy3', 'dry', 'const/linear', True, False, derive='replace')
+  add(cfg3, 'dy2', 'time', 'random/random', False, False, derive='copy')
+  add(cfg3, 'dy3', 'dry', 'random/random', False, False, option='sparse')
+  add(cfg3, 'dy3', 'dry', 'const/linear', False, False, option='no_vertical_advection')
+  add(cfg3, 'dy3', 'dry', 'const/linear', False, False, option='upwind')
   add(cfg3, 'dy2', 'moist', 'random/random', False, False, q_mode='uniform')
   add(cfg3, 'dy2', 'cloud', 'const/linear', False, False, q_mode='general', condensate=False)
   add(cfg3, 'dy2', 'cloud', 'const/linear', False, False, q_mode='general', condensate=True)
